@@ -68,6 +68,9 @@ CLAIMS = {
  'C20': ("Decides the store's structural invariants: every access to store/nBytes/maxBytes and to any list's size/first/data holds the store mutex (helpers verified as requires-lock through all their callers); accounting pairs (appendData ↔ nBytes += len(d); removeFirst result ↔ nBytes -= r; SessionClosed subtracts every list's size before deleting); list fields have exactly two writers with the expected single updates (size shrinks on removal, oldest first, first++); After's offset is index + 1 - first in linear normal form, < 0 → ErrEventsPurged, >= len → empty, suffix cloned under the lock, error yielded alone, consumers called outside the lock; Append purges before appending, SetMaxBytes purges, purge loops while nBytes > maxBytes through removeFirst on non-empty lists. "
          "Not decided: equivalence with a reference model over all histories.",
          "interprocedural must-locksets, accounting-pair post-dominance, linear normal form of index arithmetic, field-writer enumeration", "§3 C20"),
+ 'C18': ("Decides the notification plumbing structurally: every add/remove on a feature set runs inside a closure passed to the change funnel with the matching notification constant; changeAndNotify arms (AfterFunc → notifySessions(name)) or re-arms (Reset) under s.mu, gated by change() and the capability; notifySessions clears the slot and snapshots sessions and the matching cloned subscription map in one critical section and fans out unlocked; legacy/modern split by version; allowedSubscriptions grants only requested∧advertised kinds; listen registers each kind in its own map under lock, acknowledges only after all registrations, defers unsubscribe/forget; ResourceUpdated reads only resourceSubscriptions[uri]; each client change handler invalidates exactly the caches its list/read fills, before the user callback; cache fills after an RPC use putIfCurrent with a generation read from the same cache before the RPC; both invalidation methods move the generation on all paths. "
+         "Not decided: 'at least one notification after the last change' under all timer schedules.",
+         "who-may-mutate funnel rule, lock-span atomicity, table agreement (notification ↔ map ↔ cache), ordering/dominance rules, generation-token dataflow", "§3 C18"),
 }
 
 REASONS = {}
